@@ -196,8 +196,15 @@ def build(cfg, upto=None):
         except (ValueError, TypeError):
             pass
     try:
-        dec = wishbone.Decoder(addr_width=cfg["aw"], data_width=cfg["dw"], granularity=cfg["g"], features=spell(cfg["feat"]),
-                               alignment=cfg["align"])
+        kw_ = {"granularity": cfg["g"], "features": spell(cfg["feat"]), "alignment": cfg["align"]}
+        odd = len(cfg["subs"]) % 2 == 1
+        if odd and cfg["align"] == 0:
+            del kw_["alignment"]                      # documented defaults: alignment 0, no features, granularity = data width
+        if odd and not cfg["feat"]:
+            del kw_["features"]
+        if odd and cfg["g"] == cfg["dw"]:
+            del kw_["granularity"]
+        dec = wishbone.Decoder(addr_width=cfg["aw"], data_width=cfg["dw"], **kw_)
         for i in range(len(cfg["subs"]) if upto is None else upto):
             if i in cfg.get("refused_before", ()):
                 refused_add(dec, i)
